@@ -196,6 +196,37 @@ func c02BlsSingle[K bls.KeyGroup](t *testing.T, unit, name string, pkSize, sigSi
 				r.Outcome(class[:strings.Index(class, "|")] + "->rejected")
 			}
 		})
+		// two deviations that belong together: the identity as public key AND as signature (e(O, H(m)) = e(g, O) = 1 for
+		// every message, so only key validation stands between this pair and a universal forgery)
+		for _, ml := range []int{0, 33} {
+			idPK := make([]byte, pkSize)
+			idSig := make([]byte, sigSize)
+			idPK[0], idSig[0] = 0xC0, 0xC0
+			id := fmt.Sprintf("%sidentity-pair:m%d", base, ml)
+			if !r.Want(id) {
+				continue
+			}
+			ok, dec := false, false
+			pn, what := verifmc.Try(func() {
+				k := new(bls.PublicKey[K])
+				if err := k.UnmarshalBinary(idPK); err != nil {
+					return
+				}
+				dec = true
+				ok = bls.Verify(k, verifmc.Msg(ml), idSig)
+			})
+			r.Eval(1)
+			r.Distinct(id)
+			r.Count("alt_identity-pair", 1)
+			pl := map[string]interface{}{"pk": verifmc.FullHex(idPK), "sig": verifmc.FullHex(idSig), "msg_len": ml}
+			switch {
+			case pn:
+				col.Add(fmt.Sprintf("C02|%s|identity-pair|panic:%s", name, verifmc.PanicClass(what)), id, id+": panicked: "+what, pl)
+			case ok:
+				col.Add(fmt.Sprintf("C02|%s|identity-pair|accepted", name), id, id+": the identity signature verifies under the identity public key", pl)
+			}
+			r.Outcome(fmt.Sprintf("identity-pair->decoded=%v,accepted=%v", dec, ok))
+		}
 		// informational (not demanded by the property): the same point in uncompressed serialization
 		if un := uncompress(sig); un != nil {
 			acc := false
@@ -207,7 +238,7 @@ func c02BlsSingle[K bls.KeyGroup](t *testing.T, unit, name string, pkSize, sigSi
 	r.Set("plan", fmt.Sprintf("seeds=%v msgLens=%v otherMsgLens=%v msgFlipLimit=%d pairs=%v", p.Seeds, p.MsgLens, p.AllMsgLens, p.MsgFlipLimit, p.Pairs))
 	if !r.Replaying() {
 		for _, c := range []string{"honest_verified", "alt_pk-other", "alt_pk-flip", "altered_pk_decoded", "alt_msg-other", "alt_msg-flip",
-			"alt_sig-flip", "alt_sig-trunc", "alt_sig-append", "alt_sig-flags", "alt_pk-flags"} {
+			"alt_sig-flip", "alt_sig-trunc", "alt_sig-append", "alt_sig-flags", "alt_pk-flags", "alt_identity-pair"} {
 			r.RequireCounter(c, 1)
 		}
 	}
